@@ -208,6 +208,7 @@ def expectedLockUse : List (String × String × String) := [
   ("internal/driver/config/namespace_watcher.go", "NamespaceWatcher.Namespaces", "RLock"),
   ("internal/driver/config/namespace_watcher.go", "NamespaceWatcher.NamespaceFiles", "RLock"),
   ("internal/driver/config/namespace_watcher.go", "NamespaceWatcher.ShouldReload", "none"),
+  ("internal/driver/config/opl_config_namespace_watcher.go", "oplConfigWatcher.ShouldReload", "none"),
   ("internal/driver/config/opl_config_namespace_watcher.go", "oplConfigWatcher.handleChange", "Lock"),
   ("internal/driver/config/opl_config_namespace_watcher.go", "oplConfigWatcher.handleRemove", "Lock"),
   ("internal/driver/config/opl_config_namespace_watcher.go", "oplConfigWatcher.handleError", "none"),
